@@ -15,8 +15,10 @@ from props import C11_export as E
 THEOREMS = ['C11_table_roundtrip', 'C11_token_numbering_injective', 'C11_memo_roundtrip', 'C11_fields_restored',
             'C11_options_partition', 'C11_load_save', 'C11_saveload', 'C11_cache', 'C11_load_override',
             'C11_load_rejects', 'C11_standalone_partial', 'C11_flags_list_changes_unless_test',
-            'C11_flags_test_preserved', 'C11_wf_check_sound', 'C11_example']
-GEN_DEPS = ['SerializeFields']
+            'C11_flags_test_preserved', 'C11_wf_check_sound', 'C11_example',
+            'C11_standalone_same_program', 'C11_standalone_generated_module', 'C11_standalone_closed',
+            'C11_standalone_closed_spec', 'C11_standalone_ordered', 'C11_standalone_ordered_spec']
+GEN_DEPS = ['SerializeFields', 'Standalone']
 RULE = ('fixed corpus of LALR grammars (imports from common.lark, templates, rule/terminal priorities, 120 terminals, '
         'regex and string flags, bytes mode, placeholders, aliases/inlining, several start symbols, lark.lark) plus '
         'seeded random grammars, each under sampled options {lexer basic/contextual, keep_all_tokens, '
@@ -32,7 +34,9 @@ TRUSTED_BASE = ['pickle / repr+Python parser / zlib / base64 as exact codecs of 
                 'translator/gen_serialize.py pins the code shape of Serialize.serialize/deserialize, _serialize, '
                 '_deserialize, SerializeMemoizer, Enumerator, ParseTableBase.serialize/deserialize, Lark.save/_load, '
                 '_deserialize_lexer_conf, LarkOptions.__init__ loop; lists, tags and defaults are regenerated',
-                'extraction of the ###{standalone sections and docstring stripping: not modelled, differential only']
+                'stand-alone program part: the Python evaluator is a Section parameter with the locality hypothesis (a run depends '
+                'only on the definitions reachable from the entry point through global-name references); translator/'
+                'gen_standalone.py executes the tool\'s own extract_sections / strip_docstrings and analyses with ast + symtable']
 ASSUMPTIONS = ['memo keys identify objects inside one instance: rules are distinct by (origin, expansion), terminals '
                'by name (checked on every exported instance by inst_wf_b)',
                'cache_grammar (Grammar object in the saved data), custom lexer classes and postlexers are outside the model',
@@ -121,6 +125,28 @@ def obs_scan(p, text, start):
         out.append(canon_exc(e))
     return out
 
+def obs_witnesses(ns, p, text, start):
+    """regression (F49): code paths of the generated module that used names its header did not import"""
+    import warnings as _w
+    out = []
+    try:
+        tree = p.parse(text, start=start)
+    except Exception as e:
+        return [canon_exc(e)]
+    T = type('T', (ns.Transformer,), {})
+    TN = type('TN', (ns.Transformer_NonRecursive,), {})
+    fs = [lambda: canon((T() * T()).transform(tree)), lambda: canon(TN().transform(tree)),
+          lambda: canon_tok(ns.Token(type_='A', value='x')),
+          lambda: type(p.parse_interactive(text, start=start).lexer_state).__name__]
+    for f in fs:
+        try:
+            with _w.catch_warnings():
+                _w.simplefilter('ignore')
+                out.append(f())
+        except Exception as e:
+            out.append(['raised', type(e).__name__, str(e)[:80]])
+    return out
+
 def observe(p, probes):
     """probes: list of [kind, text, start]; text is str or ['bytes', latin1]"""
     res = []
@@ -134,6 +160,7 @@ def observe(p, probes):
 _obs = {}
 exec(OBSERVER_SRC, _obs)
 observe = _obs['observe']
+obs_witnesses = _obs['obs_witnesses']
 
 RUNNER_SRC = OBSERVER_SRC + r'''
 import sys, json, importlib.util
@@ -148,7 +175,9 @@ def main():
             spec.loader.exec_module(mod)
             assert 'lark' not in sys.modules, 'the stand-alone module imported lark'
             p = mod.Lark_StandAlone(**j['kw'])
-            out.append({'ok': True, 'res': observe(p, j['probes']), 'rules': len(p.rules), 'terminals': len(p.terminals)})
+            wit = obs_witnesses(mod, p, j['wit'][0], j['wit'][1]) if j.get('wit') else None
+            out.append({'ok': True, 'res': observe(p, j['probes']), 'rules': len(p.rules), 'terminals': len(p.terminals),
+                        'wit': wit})
         except Exception as e:
             import traceback
             out.append({'ok': False, 'err': traceback.format_exc()[-1500:]})
@@ -554,7 +583,9 @@ def run_standalone(ctx, jobs):
         if rc != 0 or not os.path.exists(op) or os.path.getsize(op) == 0:
             results[k] = {'ok': False, 'err': 'generation failed rc=%s: %s' % (rc, out)}
         else:
-            todo.append((k, {'name': 'sa_' + j['name'], 'path': op, 'kw': j.get('kw', {}), 'probes': j['probes']}))
+            todo.append((k, {'name': 'sa_' + j['name'], 'path': op, 'kw': j.get('kw', {}), 'probes': j['probes'],
+                             'wit': j.get('wit')}))
+            j['module_path'] = op
     if todo:
         runner = os.path.join(ctx.scratch, 'sa_runner.py')
         open(runner, 'w').write(RUNNER_SRC)
@@ -576,6 +607,60 @@ def run_standalone(ctx, jobs):
             for (k, _), o in zip(share, out):
                 results[k] = o
     return results
+
+
+# ----------------------------------------------------------------------------------------------- program tie
+def check_standalone_program(ctx, sa_jobs):
+    """the module the real tool wrote vs the program regenerated from the sources (Gen/Standalone.v): same top-level
+    statements in the same order, same normalised-AST hash and references; and the closedness the Coq Example
+    asserts, recomputed here so that a missing name is reported by name"""
+    import builtins
+    sys.path.insert(0, os.path.join(lib.VERIF, 'translator'))
+    import gen_standalone as GS
+    try:
+        lib_entries, lib_provided = GS.library_program(lib.REPO)
+    except Exception as e:
+        ctx.violation('correspondence:standalone-program', {'no_longer_checks': 'sections can be extracted and parsed',
+                                                            'error': str(e)[:400]}, False, 'library program: %s' % e)
+        return
+    txt = open(os.path.join(lib.COQ, 'Ser', 'StandaloneModel.v')).read()
+    m = re.search(r'Definition declared_unprovided[^\[]*\[(.*?)\]\.', txt, re.S)
+    declared = set(re.findall(r'"([^"]+)"', m.group(1)))
+    known = set(lib_provided) | set(dir(builtins)) | set(GS.MODULE_DUNDERS)
+    missing = {}
+    for e in lib_entries:
+        for r in e['refs']:
+            if r not in known and r not in declared:
+                missing.setdefault(r, []).append(e['label'])
+    if missing:
+        ctx.violation('correspondence:standalone-closed',
+                      {'no_longer_checks': 'closed_program', 'missing_names': {k: v[:5] for k, v in missing.items()}}, False,
+                      'extracted stand-alone code references %s which the generated module does not define'
+                      % ', '.join('%s (in %s)' % (k, '/'.join(v[:3])) for k, v in sorted(missing.items())))
+    plain = [j for j in sa_jobs if not j['compress'] and j.get('module_path')]
+    for j in plain[:(len(plain) if ctx.thorough() else 1)]:
+        try:
+            gen_entries, _ = GS.analyse_module(open(j['module_path']).read())
+        except Exception as e:
+            ctx.violation('correspondence:standalone-ast', {'no_longer_checks': 'generated module parses', 'error': str(e)[:300]},
+                          False, 'generated module: %s' % e)
+            continue
+        skip = {'DATA', 'MEMO', '__version__'}
+        ge = [e for e in gen_entries if e['label'] not in skip]
+        le = [e for e in lib_entries if e['label'] not in skip]
+        drift = []
+        sig = lambda e: (tuple(e['names']), e['kind'])
+        if [sig(e) for e in ge] != [sig(e) for e in le]:
+            drift.append('statement sequence differs: %s' % sorted(set(map(str, map(sig, ge))) ^ set(map(str, map(sig, le))))[:8])
+        else:
+            for e, x in zip(ge, le):
+                if x['hash'] != e['hash'] or x['refs'] != e['refs']:
+                    drift.append(e['label'])
+        ctx.count('standalone-ast', key=j['name'], nontrivial=True, sa_definitions=len(ge))
+        if drift:
+            ctx.violation('correspondence:standalone-ast',
+                          {'no_longer_checks': 'generated module definitions = regenerated library definitions', 'drift': drift[:12]},
+                          False, 'definitions of the generated module differ from the sources: %s' % drift[:6])
 
 
 # ----------------------------------------------------------------------------------------------- comparison
@@ -1004,17 +1089,23 @@ def correspond(ctx):
                 pe = None
             if pe is not None:
                 refe = jsonable(observe(pe, probes))
+                wit, refw = None, None
+                if isinstance(probes[0][1], str):
+                    import lark as _lark
+                    wit = [probes[0][1], probes[0][2]]
+                    refw = jsonable(obs_witnesses(_lark, pe, wit[0], wit[1]))
                 for compress in (False, True):
                     sa_jobs.append({'name': 'm%d_%d' % (ci, compress), 'grammar': g, 'opts': opts, 'compress': compress,
-                                    'probes': probes, 'kw': {}})
-                    sa_meta.append((name, g, eq, probes, refe, compress))
+                                    'probes': probes, 'kw': {}, 'wit': wit})
+                    sa_meta.append((name, g, eq, probes, refe, compress, refw))
     if combos:
         ctx.sample({'grammar': combos[0][0], 'options': {k: str(v) for k, v in combos[0][2].items()}, 'probe': combos[0][3][0]})
 
     # stand-alone modules, generated by the command line tool and executed in clean subprocesses
     if sa_jobs:
         res = run_standalone(ctx, sa_jobs)
-        for (name, g, eq, probes, refe, compress), r in zip(sa_meta, res):
+        check_standalone_program(ctx, sa_jobs)
+        for (name, g, eq, probes, refe, compress, refw), r in zip(sa_meta, res):
             variant = 'standalone-compress' if compress else 'standalone'
             if not r or not r.get('ok'):
                 ctx.violation('differential:' + variant, {'grammar_name': name, 'grammar': g, 'options': eq, 'variant': variant,
@@ -1027,6 +1118,15 @@ def correspond(ctx):
             d = first_diff(probes, refe, r['res'])
             if d:
                 report_diff(ctx, 'differential:' + variant, name, g, eq, variant, d)
+            if refw is not None:
+                ctx.count('diff:standalone-witness', key=(name, compress), nontrivial=True)
+                if r.get('wit') != refw:
+                    ctx.violation('differential:standalone-witness',
+                                  {'grammar_name': name, 'grammar': g, 'options': eq, 'variant': variant,
+                                   'probe': ['witness', probes[0][1], probes[0][2]], 'expected_library': refw,
+                                   'observed': r.get('wit')}, True,
+                                  'transformer chain / non-recursive transformer / Token(type_=) / lexer_state behave differently '
+                                  'in the generated module (a name its header does not provide?)')
 
     # Coq evaluation
     if coq_jobs:
